@@ -40,7 +40,8 @@ LEVEL_NOTE = ("Trusted: Coq kernel + stdlib real axioms; the translator's readin
               "exhibited in nonvacuous.v); erf(+-inf) = +-1, i.e. the Gaussian integral, is assumed and NOT derived. Deviation from "
               "the property text, proved: at cost = inf d(a,a) = 2|a| (documented in the docstring), at cost 0 the distance is a "
               "pseudo-metric. NOT proved: float rounding; non-integer Poisson support in pmf; the quadrature / series sums run on "
-              "the implementation are a numeric test only. Not translated: validate, sample, sample_mv.")
+              "the implementation are a numeric test only; so are the dtype-independence and float32-accuracy streams (exp(x)-1 and "
+              "expm1(x) are deliberately the same real-number term). Not translated: validate, sample, sample_mv.")
 TRUSTED = ["C20/Model.v: hand-written sequence code of inferno/core/math.py:255-402 (isi: pad/nonzero/split/pad_sequence/diff; "
            "victor_purpura_pair_dist: grid initialisation, the two loops, cost = inf) around the generated element-wise "
            "expressions, tied to the code by the correspondence check only",
@@ -90,7 +91,7 @@ def gen_ie(rng):
             "n": r3(rng, -5, 5), "dt": dt, "c": rng.choice([0.5, 2.0, 20.0, 1.7, 0.3])}
 
 
-POPS = [[], [1], [3], [2, 2], [2, 3], [4]]
+POPS = [[], [1], [3], [2, 2], [2, 3], [4], [9], [2, 7]]
 
 
 def prod(sh):
@@ -127,7 +128,9 @@ def gen_isi(rng, malformed=False):
         data = [trains[j][t] for j in range(m) for t in range(Tn)]
         shape = pop + [Tn]
     return {"kind": "isi", "dt": rng.choice([1.0, 0.5, 0.1, 1.3]), "time_first": tf, "shape": shape, "pop": pop,
-            "m": m, "T": Tn, "data": data}
+            "m": m, "T": Tn, "data": data,
+            # half of the time-first rasters are passed WITHOUT the time_first argument (documented default: True)
+            "default_layout": bool(tf and len(shape) >= 1 and rng.random() < 0.5)}
 
 
 COSTS = [0.0, 0.5, 1.0, 2.0, 0.3, 7.7, "inf", 1e-3, 40.0]
@@ -191,11 +194,104 @@ def edge_cases():
         out.append({"kind": "normal_mv", "m": m, "v": 0.0})
         out.append({"kind": "normal_mv", "m": -m, "v": 0.0})
         out.append({"kind": "lognormal_mv", "m": m, "v": 0.0})
+    # isi with the default layout on a short recording of a wide population (T < last dimension) and on a square one
+    for Tn, pop in ((6, [9]), (3, [2, 7]), (4, [4]), (2, [3])):
+        m = prod(pop)
+        data = [1 if (3 * t + 2 * j) % 5 in (0, 1) else 0 for t in range(Tn) for j in range(m)]
+        out.append({"kind": "isi", "dt": 0.5, "time_first": True, "shape": [Tn] + pop, "pop": pop, "m": m, "T": Tn,
+                    "data": data, "default_layout": True})
+    out += dtype_cases() + f32_edge_cases()
     out.append({"kind": "quad_poisson", "rate": 0.0})
     out.append({"kind": "quad_poisson", "rate": 1e-6})
     out.append({"kind": "quad_cont", "dist": "normal", "loc": 0.0, "scale": 1e-3})
     out.append({"kind": "quad_cont", "dist": "lognormal", "loc": -1.0, "scale": 0.05})
     return out
+
+
+SUPPORTS = {"poisson": [0, 1, 2, 3, 5, 8], "normal": [-2, -1, 0, 1, 2, 4], "lognormal": [1, 2, 3, 5]}
+PARAMS = {"poisson": [[2.5], [0.75], [3.0]], "normal": [[0.5, 1.5], [1.0, 2.0]], "lognormal": [[0.25, 0.75], [1.0, 2.0]]}
+
+
+def dtype_cases():
+    """support tensors of every dtype x parameters of every python / tensor kind, all distributions (deterministic).
+    The support values are small integers so that every dtype represents them; bool supports use {0, 1}."""
+    out = []
+    for dist in ("poisson", "normal", "lognormal"):
+        for sd in ("int64", "int32", "bool", "float32", "float64"):
+            for pk in ("pyfloat", "pyint", "t64_0d", "t64", "t32", "np64"):
+                for ps in PARAMS[dist]:
+                    if pk == "pyint" and any(float(v) != int(v) for v in ps):
+                        continue
+                    if pk != "pyint" and all(float(v) == int(v) for v in ps) and pk not in ("pyfloat",):
+                        continue
+                    sup = SUPPORTS[dist]
+                    if sd == "bool":
+                        sup = [1] if dist == "lognormal" else [0, 1]
+                    out.append({"kind": "dtype", "dist": dist, "sdtype": sd, "pkind": pk, "support": sup, "params": ps})
+    return out
+
+
+def f32_edge_cases():
+    """python-float arguments (evaluated in float32 inside the functions) where the exact formulas are well conditioned:
+    narrow LogNormal distributions (mean / variance only), lower tail of large-rate Poisson, ordinary points."""
+    out = []
+    for loc in (0.75, -0.5, 0.0):
+        for scale in (1e-4, 3e-4, 1e-3, 3e-3, 1e-2, 0.03, 0.1, 0.5, 1.0):
+            out.append({"kind": "f32", "dist": "lognormal", "params": [loc, scale], "support": None, "mv": None})
+    for rate, ks in ((25.0, [0, 1, 2, 4, 6, 10, 25]), (40.0, [0, 5, 10, 15, 40]), (60.0, [0, 1, 20, 60]), (2.5, [0, 1, 2, 3, 7])):
+        out.append({"kind": "f32", "dist": "poisson", "params": [rate], "support": [float(k) for k in ks], "mv": None})
+    return out
+
+
+def gen_f32(rng):
+    dist = rng.choice(["normal", "lognormal", "poisson"])
+    if dist == "poisson":
+        rate = r3(rng, 0.2, 50)
+        ks = sorted({max(0, int(rate + d)) for d in (-30, -12, -4, 0, 3, 9)} | {0})
+        return {"kind": "f32", "dist": dist, "params": [rate], "support": [float(k) for k in ks], "mv": None}
+    if dist == "normal":
+        loc, scale = r3(rng, -3, 3), r3(rng, 0.2, 3)
+        sup = [loc + scale * z for z in (-2.5, -1.0, 0.0, 0.5, 2.0, 3.0)]
+        m = r3(rng, 0.2, 5) * rng.choice([1, -1])
+        return {"kind": "f32", "dist": dist, "params": [loc, scale], "support": sup, "mv": [m, r3(rng, 0.05, 4)]}
+    loc, scale = r3(rng, -1, 1.5), r3(rng, 0.2, 1.2)
+    sup = [math.exp(loc + scale * z) for z in (-2.5, -1.0, 0.0, 0.5, 2.0, 3.0)]
+    m = r3(rng, 0.3, 5)
+    return {"kind": "f32", "dist": dist, "params": [loc, scale], "support": sup, "mv": [m, r3(rng, 0.05, 1.0) * m * m]}
+
+
+def ref_values(dist, x, ps):
+    """float64 closed forms (math module), independent of the implementation and of the Coq model"""
+    if dist == "poisson":
+        (rate,) = ps
+        k = int(x)
+        lp = lambda j: (j * math.log(rate) if j else 0.0) - rate - math.lgamma(j + 1)
+        cdf = math.fsum(math.exp(lp(j)) for j in range(k + 1))
+        return {"pmf": math.exp(lp(k)), "logpmf": lp(k), "cdf": cdf, "logcdf": math.log(cdf)}
+    loc, scale = ps
+    u = x if dist == "normal" else math.log(x)
+    z = (u - loc) / scale
+    lpdf = -math.log(scale) - 0.5 * math.log(2 * math.pi) - 0.5 * z * z - (0.0 if dist == "normal" else u)
+    cdf = 0.5 * math.erfc(-z / math.sqrt(2))
+    return {"pdf": math.exp(lpdf), "logpdf": lpdf, "cdf": cdf, "logcdf": math.log(cdf)}
+
+
+def ref_moments(dist, ps):
+    if dist == "poisson":
+        return ps[0], ps[0]
+    if dist == "normal":
+        return ps[0], ps[1] ** 2
+    loc, scale = ps
+    return math.exp(loc + scale * scale / 2), math.expm1(scale * scale) * math.exp(2 * loc + scale * scale)
+
+
+def near32(a, b, rel=1e-4, ab=1e-30):
+    """float32 tolerance: relative 1e-4 (values), for logarithms additionally 1e-4 absolute (see callers)"""
+    if a != a or b != b:
+        return False
+    if math.isinf(a) or math.isinf(b):
+        return a == b
+    return abs(a - b) <= ab + rel * max(abs(a), abs(b))
 
 
 def gen_quad(rng):
@@ -217,6 +313,7 @@ def gen_cases(rng, tier):
     cases += [gen_isi(rng, malformed=(i % 12 == 11)) for i in range(90 * mult)]
     cases += [gen_vp(rng) for _ in range(45 * mult)]
     cases += [gen_dist(rng) for _ in range(110 * mult)]
+    cases += [gen_f32(rng) for _ in range(40 * mult)]
     for _ in range(mult):
         cases += gen_quad(rng)
     return cases
@@ -302,6 +399,8 @@ def correspond(a, io, mo):
         if mo == []:
             return "model predicts RuntimeError, implementation returned " + str(io["ok"]["shape"])
         r, c, rows = mo
+        if io["ok"]["rows2d"] is None:
+            return f"shape: implementation {io['ok']['shape']} is not (intervals, population) / (population, intervals)"
         if [r, c] != io["ok"]["rows2d"]:
             return f"shape: implementation {io['ok']['rows2d']} model {[r, c]}"
         for ri, rm in zip(io["ok"]["rows"], rows):
@@ -401,6 +500,8 @@ def oracle(case, atoms, outs):
         if "float" not in o["dtype"]:
             return [fail(case, "isi_dtype", "isi", {"dtype": o["dtype"]})]
         rows = o["rows"]
+        if rows is None:
+            return [fail(case, "isi_shape", "isi", {"shape": o["shape"], "expected": exp_shape})]
         if case["time_first"]:
             rows = [[rows[i][j] for i in range(ncol)] for j in range(m)]
         for j, (ts, row) in enumerate(zip(times, rows)):
@@ -497,6 +598,43 @@ def oracle(case, atoms, outs):
         if mean != rate or var != rate:
             fails.append(fail(case, "stated_moments", k, {"mean": mean, "var": var}))
         return fails
+    if k == "dtype":
+        o = outs[0]["ok"]
+        sig = f"{case['dist']}"
+        for fn in o["ref"]:
+            for i, (a, b) in enumerate(zip(o["test"][fn], o["ref"][fn])):
+                tol_abs = 1e-4 if fn.startswith("log") else 1e-6
+                if not near32(a, b, 2e-4, tol_abs):
+                    fails.append(fail(case, "dtype_independence", sig,
+                                      {"function": fn, "support": case["support"][i], "got": a, "float64_reference": b,
+                                       "result_dtype": o["dtypes"][fn]}))
+                    break
+            if "float" not in o["dtypes"][fn]:
+                fails.append(fail(case, "result_dtype", sig, {"function": fn, "dtype": o["dtypes"][fn]}))
+        return fails[:2]
+    if k == "f32":
+        o = outs[0]["ok"]
+        dist, ps = case["dist"], case["params"]
+        if case.get("support"):
+            for i, x in enumerate(case["support"]):
+                ref = ref_values(dist, x, ps)
+                for fn, rv in ref.items():
+                    got = o[fn][i]
+                    ok = near32(got, rv, 1e-4, 1e-4 * max(1.0, abs(rv)) if fn.startswith("log") else 1e-30)
+                    if not ok:
+                        fails.append(fail(case, "float32_accuracy:" + fn, dist,
+                                          {"function": fn, "support": x, "params": ps, "got": got, "reference": rv}))
+        m, v = ref_moments(dist, ps)
+        if not near32(o["mean"], m):
+            fails.append(fail(case, "float32_accuracy:mean", dist, {"params": ps, "got": o["mean"], "reference": m}))
+        if not near32(o["variance"], v):
+            fails.append(fail(case, "float32_accuracy:variance", dist, {"params": ps, "got": o["variance"], "reference": v}))
+        if case.get("mv"):
+            loc, scale, mean, var = o["mv"]
+            if not near32(mean, case["mv"][0], 2e-4) or not near32(var, case["mv"][1], 1e-3):
+                fails.append(fail(case, "params_mv_roundtrip_float32", dist,
+                                  {"target": case["mv"], "mean": mean, "variance": var, "loc": loc, "scale": scale}))
+        return fails[:3]
     if k == "quad_cont":
         o = outs[0]["ok"]
         part = case["dist"]
@@ -601,7 +739,11 @@ def run(ctx):
                 "isi rasters (T<=12, 6 population shapes, both layouts, empty/single/ragged trains, every 12th with an empty "
                 "population), Victor-Purpura triples (0-6 spikes, dyadic + arbitrary times, 9 costs incl. 0 and inf, scalar and "
                 "tensor cost; 6 ordered pairs each), Normal/LogNormal/Poisson points and mean/variance targets, plus quadrature "
-                "of the implementation's densities (numeric test); non-trivial = sample strictly inside the step / >=2 spikes / "
+                "of the implementation's densities (numeric test); implementation-only numeric streams: every support dtype "
+                "(int64/int32/bool/float32/float64) x parameter kind (python float/int, 0-d and 1-d float64, float32, numpy) "
+                "against the all-float64 evaluation, and python-float arguments (float32 inside the functions) against float64 "
+                "closed forms at relative 1e-4 where the formula is well conditioned (narrow LogNormal moments, lower tail of "
+                "large-rate Poisson); isi also called without time_first on time-first rasters incl. T < last dim; non-trivial = sample strictly inside the step / >=2 spikes / "
                 ">=2 spikes in the triple; distinct by full case text"
                 + ("; plus all rasters with T<=4, M<=2 and all triples of <=2-spike trains over {0,.5,1} at 3 costs" if exhaustive else ""),
         "case_kinds": dict(kinds), "model_evaluations": nterms,
